@@ -1,6 +1,6 @@
 """C18 - run records describe the run that produced the stored result (StoreAtomic behaviours with failing runs,
 retries and forced recomputations; run info and log files read back after every step)."""
-from ..store_check import run_families
+from ..store_check import scaled, run_families
 
 RELEVANT = {'runinfo', 'log'}
 
@@ -30,12 +30,7 @@ def plans(quick):
                  gen=dict(steps=4, slots=1, rcs=['model', 'model.large'], lists=[['model'], ['model.large']], restart=False),
                  cover_limit=120, walks=40),
         ]
-    return [
-        dict(family=f, opts=opts, checks=[dict(steps=5, slots=2) if f not in ('kinds', 'levels') else dict(steps=4, slots=1)],
-             gen=dict(steps=4, slots=1), walks=300, walk_len=16,
-             sim=dict(num=700, depth=18))
-        for f in ('chain', 'mounts', 'diamond', 'kinds', 'levels')
-    ]
+    return scaled(plans(True), 3)
 
 
 def run(ctx):
